@@ -513,6 +513,10 @@ class VSocket:
         net = self._net
         if net.gate is not None:
             net.gate.connection_point()
+        if isinstance(addr[0], str) and '%' in addr[0] and len(addr) == 2:
+            # a numeric zone in the host string of a 2-tuple is what the real socket layer turns into the scope id
+            ip, _, zone = addr[0].partition('%')
+            addr = (ip, addr[1], 0, int(zone) if zone.isdigit() else -1)
         self.rec['addr'] = [addr[0], addr[1]]
         net.connects.append((self.rec['id'], int(self.family), addr[0], addr[1], bool(self.rec['nonblocking'])))
         net.connect_addrs.append(tuple(addr))          # the socket address exactly as the program passed it
